@@ -1,0 +1,7 @@
+//go:build !verif
+
+package server
+
+// verifPointS marks a scheduling point used by the external verification
+// harness. Without the "verif" build tag it does nothing.
+func verifPointS(site, key string) {}
